@@ -27,13 +27,13 @@ CLAIMS = {
             "(C01_step, C01_handleMessage, per-stage C01_handleRawMessage/_handleDialog/_getNextRequestHop/_responseHop/_insertSelf); the bytes on the wire carry "
             "exactly one Content-Length equal to the body size and nothing else but the owned header lines differs (C01_one_content_length, C01_content_length_value, "
             "C01_wire). From/To/CSeq are decoded in place and written back literally (Lemmas.roundTrips_all, after the repairs D6/D25). " + PIPE_TIE +
-            "Streams: pipe (requests, responses, dialogs, TCP, twins; legal non-canonical CSeq/From/To/Request-URI spellings), frame (queued serialisation).",
+            "Streams: pipe (requests, responses, dialogs, TCP, twins; legal non-canonical CSeq/From/To/Request-URI spellings; repeated messages; requests over the sibling transport), frame (queued serialisation), send (what reaches the next hop across connection faults).",
             "7 C01 and section 14", PIPE_NOTE + "The parsed-to-wire theorem starts from the parsed message; bytes-to-parsed is Lemmas.Message.parse_render (well-formed input). "
             "Known findings: Request-URI with empty password / leading-zero port is re-encoded canonically.", PIPE_TECH),
     "C02": ("proof", "Theorems (Props/C02.lean): a response is relayed iff after popping the top Via another entry remains (C02_relay, C02_no_via_no_send, C02_no_hop_no_send); "
             "the hop is received/rport/sent-by/default port by the stated precedence (C02_hop, C02_sentby, C02_received_rport, C02_received_badrport, C02_received_norport, C02_port); "
             "the remaining Via stack is intact and in order (C02_hop_stack, C02_remaining); lifted to step (C02_step, C02_step_raw). " + PIPE_TIE +
-            "Streams: pipe focused on responses with 1-6 Via entries in every layout, every status class, empty reason phrase.",
+            "Streams: pipe focused on responses with 1-6 Via entries in every layout, every status class, empty reason phrase, byte-identical repetitions; cfg (the host table built from the global and the service's hosts sections); wire (request/response pairs through the real service, the response returns to the true source).",
             "7 C02", PIPE_NOTE, PIPE_TECH),
     "C03": ("proof", "Theorems (Props/C03.lean): at most one output per message (C03_at_most_one); fixed precedence Route > static route > service backend > drop "
             "(C03_route_first, C03_static_second, C03_precedence, C03_precedence_hop/_backend/_drop); a backend target is a member and exactly one (C03_backend_is_member, "
@@ -74,7 +74,7 @@ CLAIMS = {
             "no lock cycle means no deadlock (C09_no_lock_cycle_no_deadlock, C09_progress), and the converse witnesses (C09_undisciplined_races, C09_opposite_order_deadlocks). "
             "Regenerated-fact obligation: the access table extracted from /repo (every field access with the locks held, constructor flag, goroutine role) satisfies the discipline "
             "(Expected.Locks.repo_disciplined, decide +kernel), plus the sharing facts (Expected.Wiring). Tie: stress of several real Proxy loops of one service with membership "
-            "changes, pool, transport table and resolver traffic under the Go race detector; every race report is a violation keyed by its two code locations.",
+            "changes, pool, transport table and resolver traffic under the Go race detector, plus a real two-listener service started through startProxy, several backend connections dying at once, and bursts through the real UDP transport; every race report is a violation keyed by its two code locations; an op that never returns is a violation (watchdog).",
             "7 C09", "Partial: the Go memory model and scheduler are trusted (DRF-SC); the extractor's role assignment (which goroutine runs which function) is hand-written in "
             "Expected/Locks.lean; AddBackend/RemoveBackend send to the loop's event channel (capacity 1000) while holding the rotation lock - assumed never full.",
             "Lean 4 proof (lockset discipline) + kernel-checked obligation on the regenerated access table + race-detector stress"),
@@ -99,8 +99,8 @@ CLAIMS = {
             "7 C12", PIPE_NOTE + "Connections are doubles in the in-package stage; real sockets are exercised by the wire stage of C07.", PIPE_TECH),
     "C13": ("proof", "Theorems (Props/C13.lean): the own top Route entry is consumed exactly when it designates the receiving listener (C13_own_route, C13_designates, C13_port); "
             "the next hop is the first remaining entry (C13_hop, C13_hop_abs, C13_hop_none); keep/strip of the next-hop entry by configuration (C13_keep, C13_strip); "
-            "the other stacks are untouched (C13_other_stacks); lifted to step (C13_step). " + PIPE_TIE + "Stream: Route sets of 0-6 entries in any layout, own entry by address/alias/with "
-            "and without port, near misses.",
+            "the other stacks are untouched (C13_other_stacks); lifted to step (C13_step). " + PIPE_TIE + "Streams: Route sets of 0-6 entries in any layout, own entry by address/alias/with "
+            "and without port, near misses, the listener named twice, messages over either transport of a listener entry; cfg (every spelling of the keepNextHopRoute setting through toKeepNextHopRoute).",
             "7 C13", PIPE_NOTE, PIPE_TECH),
     "C14": ("proof", "Theorems (Props/C14.lean, 52): per-type round-trip laws parse(encode x) = x and re-encode stability on explicit decidable domains, and accessor theorems "
             "(host, port, transport, tag, branch, received, rport) for key/value parameters, URI parameters and headers, SIP URIs, absolute URIs, addr-spec, name-addr, Via entries "
@@ -112,7 +112,7 @@ CLAIMS = {
     "C15": ("proof", "Theorems (Props/C15.lean) over the DialogBasedBackend model with explicit time, for arbitrary histories of add/get/remove at non-decreasing instants: a pin is "
             "honoured strictly before t0+max(timeout,Expires) whatever else happens (C15_honoured, C15_lifetime), never from that instant on (C15_not_after), gone after remove "
             "(C15_terminated), and after any add no entry that expired more than one timeout earlier survives (sweepInv_run, C15_purged). Tie: differential histories on the real "
-            "object under a virtual clock (stored instants shifted).",
+            "object under a virtual clock (stored instants shifted); the dialog histories of the pipeline (re-pins, rejected re-INVITEs); a two-service configuration started through startProxies in real time (the dialog timeout of one service does not leak into the next).",
             "7 C15", "Partial: wall-clock behaviour (timer granularity, scheduling) is not modelled.", "Lean 4 proof (history invariants) + virtual-clock differential correspondence"),
     "C16": ("proof", "Theorems (Props/C16.lean): the identifier is direction independent (C16_symmetric, C16_direction_independent), unaffected by display names, URI parameters, "
             "other header parameters and header spelling (C16_decorations, C16_display_name, C16_other_params, C16_header_spelling), absent without either tag (C16_no_from_tag, "
@@ -128,7 +128,7 @@ CLAIMS = {
             "7 C17", PIPE_NOTE, "Lean 4 proof (relation lifted through the pipeline) + metamorphic differential correspondence"),
     "C18": ("proof", "Theorems (Props/C18.lean): characterisation of pattern matching (glob_literal, glob_star, glob_cons), the precedence literal > first matching pattern in "
             "configuration order > default > none (C18_literal_wins, C18_wildcard_next, C18_default_last, C18_precedence), determinism (C18_deterministic), next-hop port defaults. "
-            "Obligation on regenerated facts: FindRoute ranges over no map (Expected.Routes). Tie: exhaustive tables over the pattern universe x all hosts, each lookup repeated 50 times.",
+            "Obligation on regenerated facts: FindRoute ranges over no map (Expected.Routes). Tie: exhaustive tables over the pattern universe x all hosts, each lookup repeated 50 times; tables built from a YAML configuration through createPreConfigRoute (several dests per entry), the same configuration rebuilt several times; the request pipeline with repeated To hosts.",
             "7 C18", "Assumption (validated exhaustively by the stream, not a theorem): on patterns over [A-Za-z0-9._*-] Go's regexp of the escaped pattern decides the model's glob.",
             "Lean 4 proof + exhaustive differential correspondence"),
     "C19": ("proof", "Theorems (Props/C19.lean): for every history of duplicate-free resolutions and failures the rotation list, its map and the proxy's address index hold exactly the "
@@ -141,7 +141,7 @@ CLAIMS = {
     "C20": ("proof", "Theorems (Props/C20.lean) over the send loops for every fault oracle: success implies exactly one completed write, error implies none (C20_client, C20_backend, "
             "C20_failover), fallback to a fresh connection within the same send (C20_fallback, C20_fallback_backend, C20_failover_to_secondary), refusal yields an error - total "
             "functions, no hang (C20_refusal), the working connection is reused (C20_sticks), retry bound (retries_is_two). Tie: exhaustive fault patterns (scripted connection "
-            "doubles x real loopback listener up/down/accept-then-reset x 1-3 messages), observed synchronously.",
+            "doubles x real loopback listener up/down/accept-then-reset x 1-3 messages), observed synchronously; partial writes, connections closed on the proxy's side, idle periods with a reader goroutine attached, a configured local port.",
             "7 C20", "Partial: 'written' means Write returned nil; ops after an accept-then-reset are compared by the oracle only (outcome depends on the peer's RST).",
             "Lean 4 proof (loop induction over fault oracles) + exhaustive fault enumeration"),
 }
